@@ -49,7 +49,9 @@ orc_target_get_default (void)
     OrcTarget *const target = orc_target_get_by_name (envvar);
 
     free (envvar);
-    if (target != NULL)
+    /* a backend this CPU cannot execute (or one that produces source text)
+     * cannot be what orc_program_compile() compiles and then runs */
+    if (target != NULL && target->executable)
       return target;
   }
 
